@@ -396,6 +396,13 @@ func (w *vmgrWorld) retStr(p Poll) string {
 func (w *vmgrWorld) cleanup() {
 	VmgrHook = nil
 	if w.m != nil {
+		// learn every poller still in the slice (a call that panicked left no dump behind), so that
+		// the wait below covers all of them
+		for _, p := range w.m.polls {
+			if p != nil {
+				w.idOf(p)
+			}
+		}
 		func() {
 			defer func() { recover() }()
 			w.m.Close()
@@ -818,7 +825,7 @@ func (s *vmgrSched) runPhase(inject int) (ok bool) {
 
 func vmgrGenSeq(w *vmgrWorld, out *vmgrOut, rng *rand.Rand, nops int) {
 	do := func(f string, a ...interface{}) {
-		if w.dead {
+		if w.dead && !strings.HasPrefix(f, "scn") {
 			return
 		}
 		op, rep := w.exec(strings.Fields(fmt.Sprintf(f, a...)), rng)
@@ -875,7 +882,7 @@ func vmgrGenSeq(w *vmgrWorld, out *vmgrOut, rng *rand.Rand, nops int) {
 
 func vmgrGenStress(w *vmgrWorld, out *vmgrOut, rng *rand.Rand) {
 	do := func(f string, a ...interface{}) {
-		if w.dead {
+		if w.dead && !strings.HasPrefix(f, "scn") {
 			return
 		}
 		op, rep := w.exec(strings.Fields(fmt.Sprintf(f, a...)), rng)
@@ -905,7 +912,7 @@ func vmgrGenStress(w *vmgrWorld, out *vmgrOut, rng *rand.Rand) {
 
 func vmgrGenSched(w *vmgrWorld, out *vmgrOut, rng *rand.Rand) {
 	do := func(f string, a ...interface{}) {
-		if w.dead {
+		if w.dead && !strings.HasPrefix(f, "scn") {
 			return
 		}
 		op, rep := w.exec(strings.Fields(fmt.Sprintf(f, a...)), rng)
